@@ -4,7 +4,7 @@
    bridge contract abi.encode()s and hashes, and pre-images of different (gravity id, kind, object)
    tuples differ.  keccak/ECDSA are not modelled: statements are on pre-images, `recover` is universally
    quantified. *)
-From Coq Require Import ZArith List.
+From Coq Require Import ZArith List Bool.
 From Coq Require String.
 From FxV Require Import model.M_Abi model.M_CkDesc model.M_Confirm proofs.P_Abi proofs.P_Confirm gen.Gen_Checkpoint.
 Import ListNotations.
@@ -154,25 +154,30 @@ Print Assumptions C12_no_transplant.
 
 (* ---- who signs the transaction ---- *)
 
-Theorem C12_direct_signer_is_bridger : forall recover st m k,
-  handle recover st (tx_inner (TxDirect m)) = Accepted k ->
-  exists orc, assoc Z.eqb (snd k) (st_oracles st) = Some orc /\ tx_signer (TxDirect m) = o_bridger orc.
-Proof. exact direct_signer_is_bridger. Qed.
-Print Assumptions C12_direct_signer_is_bridger.
+Theorem C12_tx_signer_is_bridger : forall recover unpacks checks st s t k,
+  (unpacks = false \/ checks = true) ->
+  tx_deliver recover unpacks checks st s t = Accepted k ->
+  exists orc, assoc Z.eqb (snd k) (st_oracles st) = Some orc /\ s = o_bridger orc.
+Proof. exact tx_signer_is_bridger. Qed.
+Print Assumptions C12_tx_signer_is_bridger.
 
-Theorem C12_wrapped_signer_guarded : forall recover st w m k,
-  w = m_bridger m ->
-  handle recover st (tx_inner (TxWrapped w m)) = Accepted k ->
-  exists orc, assoc Z.eqb (snd k) (st_oracles st) = Some orc /\ tx_signer (TxWrapped w m) = o_bridger orc.
-Proof. exact wrapped_signer_guarded. Qed.
-Print Assumptions C12_wrapped_signer_guarded.
+Theorem C12_tree_wrapper_safe : negb msgconfirm_unpacks || msgconfirm_vb_compares_bridger = true.
+Proof. exact tree_wrapper_safe. Qed.
+Print Assumptions C12_tree_wrapper_safe.
 
-Theorem C12_wrapped_signer_refuted :
-  exists recover st w m k orc,
-    handle recover st (tx_inner (TxWrapped w m)) = Accepted k /\
-    assoc Z.eqb (snd k) (st_oracles st) = Some orc /\ tx_signer (TxWrapped w m) <> o_bridger orc.
-Proof. exact wrapped_signer_refuted. Qed.
-Print Assumptions C12_wrapped_signer_refuted.
+Theorem C12_tx_signer_is_bridger_on_tree : forall recover st s t k,
+  tx_deliver recover msgconfirm_unpacks msgconfirm_vb_compares_bridger st s t = Accepted k ->
+  exists orc, assoc Z.eqb (snd k) (st_oracles st) = Some orc /\ s = o_bridger orc.
+Proof. exact tx_signer_is_bridger_on_tree. Qed.
+Print Assumptions C12_tx_signer_is_bridger_on_tree.
+
+(* latent, see docs/C12.md: needs UnpackInterfaces without the comparison *)
+Theorem C12_wrapped_signer_latent :
+  exists recover st s t k orc,
+    tx_deliver recover true false st s t = Accepted k /\
+    assoc Z.eqb (snd k) (st_oracles st) = Some orc /\ s <> o_bridger orc.
+Proof. exact wrapped_signer_latent. Qed.
+Print Assumptions C12_wrapped_signer_latent.
 
 Theorem C12_confirm_nonvacuous :
   handle rec_ok ex_state ex_msg = Accepted ((KOracleSet, 0, 3), 11) /\
